@@ -46,7 +46,7 @@ func init() {
 		return target{Dir: "core/circuitbreaker", Func: typ + ".OnRequestComplete", Name: name,
 			Hints: map[string]hint{
 				"b.stat":                               {"", "opaque"},
-				"metricStat.currentCounter()":          {"", "opaque"},
+				"metricStat.currentCounter()":          {"cur", "opaque"},
 				"metricStat.allCounter()":              {"", "opaque"},
 				"b.CurrentState()":                     {"state", "int32"},
 				"atomic.LoadUint64(&b.curProbeNumber)": {"cur_probe", "uint64"}},
@@ -66,13 +66,13 @@ func init() {
 			Hints:   map[string]hint{"ctx.Entry()": {"", "opaque"}},
 			Effects: []string{"stateChangedCounter.Add("},
 			Acts: map[string]act{
-				"b.state.cas":                    {Tag: brkCas, Keep: []int{0, 1}, Ret: hint{"cas_ok", "bool"}},
-				"b.resetCurProbeNum":             {Tag: brkResetProbe},
-				"b.updateNextRetryTimestamp":     {Tag: brkUpdateRetry},
-				"listener.OnTransformToOpen":     {Tag: brkNotifyOpen, Keep: []int{0, 2}},
-				"listener.OnTransformToHalfOpen": {Tag: brkNotifyHalf, Keep: []int{0}},
-				"listener.OnTransformToClosed":   {Tag: brkNotifyClosed, Keep: []int{0}},
-				"entry.WhenExit":                 {Tag: brkHookExit}}}
+				"b.state.cas":                   {Tag: brkCas, Keep: []int{0, 1}, Ret: hint{"cas_ok", "bool"}},
+				"b.resetCurProbeNum":            {Tag: brkResetProbe},
+				"b.updateNextRetryTimestamp":    {Tag: brkUpdateRetry},
+				"<range>.OnTransformToOpen":     {Tag: brkNotifyOpen, Keep: []int{0, 2}},
+				"<range>.OnTransformToHalfOpen": {Tag: brkNotifyHalf, Keep: []int{0}},
+				"<range>.OnTransformToClosed":   {Tag: brkNotifyClosed, Keep: []int{0}},
+				"entry.WhenExit":                {Tag: brkHookExit}}}
 	}
 	targets = append(targets,
 		// retryTimeoutArrived: now >= deadline (both uint64)
@@ -103,7 +103,7 @@ func init() {
 		target{Dir: "core/circuitbreaker", Func: "circuitBreakerBase.fromOpenToHalfOpen", Name: "cb_rollbackHook", Lit: 1,
 			Hints: map[string]hint{"ctx.IsBlocked()": {"blocked", "bool"}},
 			Acts: map[string]act{
-				"b.state.cas":                {Tag: brkCas, Keep: []int{0, 1}, Ret: hint{"cas_ok", "bool"}},
-				"listener.OnTransformToOpen": {Tag: brkNotifyOpen, Keep: []int{0, 2}}}},
+				"b.state.cas":               {Tag: brkCas, Keep: []int{0, 1}, Ret: hint{"cas_ok", "bool"}},
+				"<range>.OnTransformToOpen": {Tag: brkNotifyOpen, Keep: []int{0, 2}}}},
 	)
 }
